@@ -277,7 +277,13 @@ func postInline(fw *formatWriter, source []byte, cursor *commonmark.Cursor) {
 			fw.s("(")
 			title := child.LinkTitle()
 			if dst := child.LinkDestination(); dst != nil {
-				fw.s(commonmark.NormalizeURI(dst.Text(source)))
+				if uri := commonmark.NormalizeURI(dst.Text(source)); uri != "" {
+					fw.s(uri)
+				} else {
+					// An empty destination can only be written in its angle-bracket form,
+					// otherwise a title after it would be read as the destination.
+					fw.s("<>")
+				}
 				if title != nil {
 					fw.s(" ")
 				}
